@@ -586,3 +586,108 @@ PCorridor == pc <= Len(PSched) \\/ %s
     if not r.violations:
         return None, r
     return trace_to_sched(r.violations[0]["trace"])["steps"], r
+
+
+PLAN_NET_INVS = ["Agreement", "DecisionValid", "DecisionCertified", "NoEquivocation", "CommitPartsMatch"]
+
+
+def plan_from_drift_net(ctx, binp, rows, drifts, base_inp, info, byz, maxround, label, nprefix=3, budget=150, invariants=PLAN_NET_INVS):
+    """Network counterpart of plan_from_drift_solo: the observed states of ALL correct nodes at the first drifting step (plus
+    their own-message queues, the messages already visible to the network and the signatures released so far) become the
+    initial state of the design spec TMConsensusNet (real rules); TLC searches breadth-first for a continuation that breaks
+    a C01 invariant (or strands a node in the commit step); the continuation is appended to the schedule and executed on
+    the real nodes (followed by whatever tail the caller's input asks for, e.g. the synchronous suffix).  Planning only:
+    the verdict comes from the trace of the real run.  Costs nothing on a tree without drift."""
+    import re as _re
+    if not drifts:
+        return None, None
+    runs = {}
+    for r in rows:
+        runs.setdefault(r.get("run"), []).append(r)
+    corr = [n for n in info["names"] if n not in byz]
+    plans, seen, percls = [], set(), {}
+    for d in drifts:
+        row = d["row"]
+        if row.get("ev") not in ("Deliver", "ProcessInternal", "Timeout"):
+            continue
+        cls = json.dumps([d.get("what"), d.get("fields")], sort_keys=True)
+        run = runs.get(row.get("run")) or []
+        key = json.dumps({k: row.get(k) for k in ("ev", "n", "m", "k", "post")}, sort_keys=True)
+        idx = next((i for i, e in enumerate(run) if e.get("ev") == row.get("ev") and
+                    json.dumps({k: e.get(k) for k in ("ev", "n", "m", "k", "post")}, sort_keys=True) == key), None)
+        if idx is None or any(e.get("ev") in ("Set", "GST") for e in run[:idx + 1]):
+            continue
+        prefix = run[:idx + 1]
+        steps = [{"name": e["ev"], "n": e["n"], "m": e.get("m"), "k": e.get("k", "-")} for e in prefix[1:]
+                 if e.get("ev") in ("Deliver", "ProcessInternal", "Timeout")]
+        sk = json.dumps(steps, sort_keys=True)
+        if sk in seen or percls.get(cls, 0) >= 2:
+            continue
+        seen.add(sk)
+        percls[cls] = percls.get(cls, 0) + 1
+        k = len(seen)
+        name = "PlanDumpN_%s_%d" % (label, k)
+        gen_mc(ctx, name, "TMConsensusTrace", info, byz, maxround, next_="PlanNext")
+        base = ctx.spec_copy()
+        with open(os.path.join(base, name + ".tla")) as f:
+            txt = f.read()
+        txt = txt.replace("====", 'PlanFinish == l = Len(Trace) + 1 /\\ PrintT(<<"PLANSTATE", st, sgn>>) /\\ l\' = l + 1 /\\ '
+                          'UNCHANGED <<st, dec, sgn, gst, viol, drift>>\nPlanNext == Step \\/ PlanFinish\n====')
+        with open(os.path.join(base, name + ".tla"), "w") as f:
+            f.write(txt)
+        dd = os.path.join(ctx.work, "plann-%s-%d" % (label, k))
+        shutil.copytree(base, dd)
+        core.write_ndjson(os.path.join(dd, "trace.ndjson"), prefix)
+        r = ctx.tlc(name, name + ".cfg", cwd=dd, workers=1, timeout=300, deque=True, label=name)
+        mm = _re.search(r'<<\s*"PLANSTATE"', r.out)
+        st_txt = _balanced(r.out, mm.start()) if mm else None
+        shutil.rmtree(dd, ignore_errors=True)
+        if not st_txt:
+            log("plan %s/%d: no state dump" % (label, k))
+            continue
+        vals = sorted({x for e in prefix for x in _names_in(e) if x and x not in ("-", "nil") and not x.startswith("B")} | {"Z0", "ZX"})
+        pname = "PlanN_%s_%d" % (label, k)
+        net_mc(ctx, pname, info, byz, maxround, lazy=True, view=False, invariants=list(invariants), byzvalues=vals)
+        inq = " [] ".join('n = "%s" -> <<%s>>' % (n, ", ".join(_tla_msg(m) for m in _inq_after(prefix, n))) for n in corr)
+        soup = ", ".join(sorted({_tla_msg(e["m"]) for e in prefix if e.get("ev") == "ProcessInternal" and isinstance(e.get("m"), dict)}))
+        signed = ", ".join(sorted({'[n |-> "%s", t |-> "%s", r |-> %d, v |-> "%s", pol |-> %d]' % (e["n"], o["t"], o["r"], o["v"], o["pol"])
+                                   for e in prefix for o in (e.get("out") or []) if o.get("t") != "sched" and e.get("n") in corr}))
+        with open(os.path.join(base, pname + ".tla")) as f:
+            txt = f.read()
+        txt = txt.replace("====", r'''PLANSTATE == %s
+PlanInit ==
+  /\ rs = PLANSTATE[2]
+  /\ inq = [n \in Corr |-> CASE %s]
+  /\ soup = {%s}
+  /\ signed = {%s}
+  /\ act = [name |-> "Init", n |-> "-", m |-> [t |-> "-", src |-> "-", r |-> -1, v |-> "-", pol |-> -2], k |-> "-"]
+PlanR == LET S == {PLANSTATE[2][n].round : n \in Corr} IN CHOOSE x \in S : \A y \in S : y <= x
+PlanCorridor == \A n \in Corr : rs[n].round <= PlanR + 1
+====''' % (st_txt, inq, soup, signed))
+        with open(os.path.join(base, pname + ".tla"), "w") as f:
+            f.write(txt)
+        with open(os.path.join(base, pname + ".cfg")) as f:
+            c = f.read()
+        with open(os.path.join(base, pname + ".cfg"), "w") as f:
+            f.write(c.replace("INIT Init", "INIT PlanInit") + "CONSTRAINT PlanCorridor\n")
+        rp = ctx.tlc(pname, pname + ".cfg", timeout=budget, heap="8g", label=pname)
+        if rp.errors:
+            ctx.save_log(pname, rp.out)
+            log("plan %s/%d: TLC error %s" % (label, k, rp.errors[:1]))
+            continue
+        if not rp.violations:
+            log("plan %s/%d: no continuation found that breaks an invariant (%d states)" % (label, k, rp.distinct))
+            continue
+        tail = trace_to_sched(rp.violations[0]["trace"][1:])["steps"]
+        log("plan %s/%d: continuation of %d steps breaks %s in the design spec from the observed state" % (
+            label, k, len(tail), rp.violations[0]["name"]))
+        plans.append({"id": 960000 + k, "steps": steps + tail})
+        if len(plans) >= nprefix:
+            break
+    if not plans:
+        return None, None
+    inp = dict(base_inp, scheds=plans, random=0, randtail=0)
+    prow, _st = run_driver(ctx, binp, inp, "plann-" + label)
+    v = validate(ctx, prow, info, byz, maxround, "plann" + label, dedupe=False)
+    log("planned continuations %s: %d schedules -> %d property failures on the real nodes" % (label, len(plans), len(v["viol"])))
+    return prow, v
